@@ -300,3 +300,28 @@ HX void hx_usage_layout2(uint64_t base, uint64_t) {
    vs_assert(ok_len, "no line of the usage is longer than the configured line length");
    vs_assert(ok_col, "all description lines of the usage start in the same column");
 }
+
+// the free-value (positional) argument is listed like any other argument; a deprecated argument that is displayed shows its
+// default value like any other optional argument
+HX void hx_usage_positional(uint64_t show_deprecated, uint64_t) {
+   std::ostringstream os, es;
+   Handler ah(os, es, Handler::hfHelpShort | Handler::hfUsageCont | (show_deprecated ? Handler::hfUsageDeprecated : 0));
+   std::string file; int level = 3, old = 9;
+   unsigned char fl = vs_u8("flags"); vs_assume(fl < 2);
+   auto* pf = ah.addArgument("-", DEST_VAR(file), "free-description");
+   if (fl & 1) pf->setIsMandatory();
+   ah.addArgument("l,level", DEST_VAR(level), "level-description");
+   ah.addArgument("o,old", DEST_VAR(old), "old-description")->setIsDeprecated();
+   char a0[] = "prog", a1[] = "-h"; char* argv[] = {a0, a1, nullptr};
+   int rc = 0;
+   try { ah.evalArguments(2, argv); } catch (const std::exception&) { rc = 1; } catch (...) { rc = 2; }
+   vs_assert(rc == 0, "printing the usage does not fail");
+   const std::string out = os.str();
+   vs_assert(count(out, "free-description") == 1 && count(out, "level-description") == 1, "every visible argument is listed exactly once - also the free-value argument");
+   size_t pos_mand = out.find("Mandatory arguments:"), pos_opt = out.find("Optional arguments:"), kf = out.find("free-description");
+   if (fl & 1) vs_assert(pos_mand != std::string::npos && kf > pos_mand && kf < pos_opt, "a mandatory argument is listed under the mandatory caption");
+   else vs_assert(pos_mand == std::string::npos && kf > pos_opt, "an optional argument is listed under the optional caption");
+   vs_assert(count(out, "old-description") == (show_deprecated ? 1u : 0u), "a deprecated argument is listed exactly when its display was requested");
+   vs_assert(count(out, "Default value: 3") == 1, "the default value is shown for optional arguments that have it configured");
+   vs_assert(count(out, "Default value: 9") == (show_deprecated ? 1u : 0u), "a displayed deprecated argument shows its default value like any other optional argument");
+}
